@@ -120,6 +120,11 @@ def sensor_models(draw, max_bodies=5, max_sensors=10, min_sensors=3, history=Tru
       tag = '<%s name="%s"' % (mt.group(1), mt.group(2))
       xml = xml.replace(tag, tag + ' margin="%s"' % mg.fmt(draw(mg.num(0.01, 0.3))), 1)
 
+  # ---- half of the unlimited tendons become limited
+  for mt in list(re.finditer(r'<(fixed|spatial) name="([a-z0-9_]+)"[^>]*>', xml)):
+    if 'limited=' not in mt.group(0) and draw(st.booleans()):
+      tag = '<%s name="%s"' % (mt.group(1), mt.group(2))
+      xml = xml.replace(tag, tag + ' limited="true" range="0 1"', 1)
   # ---- half of the limited tendons get a narrow range so that the limit is active in many states
   for mt in list(re.finditer(r'<(fixed|spatial) name="([a-z0-9_]+)"[^>]*limited="true"[^>]*>', xml)):
     if draw(st.booleans()):
@@ -187,13 +192,13 @@ def sensor_models(draw, max_bodies=5, max_sensors=10, min_sensors=3, history=Tru
   if hs:
     kinds += ['joint']
   if balls:
-    kinds += ['ball']
+    kinds += ['ball', 'ball']
   if limited:
     kinds += ['jointlimit']
   if tendons:
     kinds += ['tendon']
   if ltendons:
-    kinds += ['tendonlimit', 'tendonlimit']
+    kinds += ['tendonlimit', 'tendonlimit', 'tendonlimit']
   if acts:
     kinds += ['actuator']
   kinds += ['framepos', 'framepos', 'framevel', 'framevel', 'frameacc', 'subtree', 'global', 'contact']
@@ -334,7 +339,7 @@ def sensor_models(draw, max_bodies=5, max_sensors=10, min_sensors=3, history=Tru
           a[key] = draw(st.sampled_from(sites))
         else:
           a[key] = draw(st.sampled_from(bodies + ['world']))
-      a['num'] = str(draw(st.integers(1, 4)))
+      a['num'] = str(draw(st.sampled_from([1, 1, 2, 3, 4])))
       if draw(st.integers(0, 4)) != 0:
         a['data'] = ' '.join(draw(_subset_in_order(CON_FIELDS)))
       if draw(st.booleans()):
